@@ -715,6 +715,14 @@ class FactoryOracle:
         if L.type == "splitter":
             for uu in L.units:
                 if uu.t_out is None and not uu.discarded:
+                    if x is not uu.x:
+                        already = [e for e in uu.emitted if e[0] in ("put", "discard") and e[1] == sx.iid]
+                        if already:
+                            mon.violation("C16", "splitter_emission", "splitter:emitted-items-differ-from-the-pallet-content:item-emitted-twice",
+                                          {"node": L.id, "item": sx.iid, "pallet": getattr(uu.x, "id", None)})
+                        elif uu.content is not None and sx.iid not in uu.content:
+                            mon.violation("C16", "splitter_emission", "splitter:emitted-items-differ-from-the-pallet-content:foreign-item-emitted",
+                                          {"node": L.id, "item": sx.iid, "pallet": getattr(uu.x, "id", None), "content": uu.content[:8]})
                     uu.emitted.append(("put", sx.iid, idx))
                     if x is uu.x:
                         self._check_splitter_unit(L, uu)
@@ -773,6 +781,14 @@ class FactoryOracle:
                 g.t_gather = now
                 L.gathering = None
             return
+        if L.type == "splitter" and L.units:
+            pu = L.units[-1]
+            if pu.t_out is None and not pu.discarded:
+                mon.violation("C16", "splitter_pallet_not_emitted", "splitter:next-pallet-pulled-although-the-previous-pallet-was-never-emitted",
+                              {"node": L.id, "pallet": getattr(pu.x, "id", None), "emitted": [e[1] for e in pu.emitted if e[0] != "unpacked"][-6:]})
+                pu.t_out = now
+                L.held -= 1
+                L.by_item.pop(id(pu.x), None)
         u = Unit(x, now, idx, len(L.units))
         L.units.append(u)
         L.by_item[id(x)] = u
